@@ -8,8 +8,10 @@ ENV="export PATH=/opt/veriftools/go1.26.8/bin:$PATH GOTOOLCHAIN=local GOFLAGS=-m
 WT='/tmp/seedwt'
 def sh(c):
     p=subprocess.run(['bash','-c',ENV+c],capture_output=True,text=True); return p.returncode,p.stdout+p.stderr
+import shutil
+shutil.copy('/verif/bin/amcheck','/tmp/amcheck.matrix')  # a private copy: rebuilding bin/amcheck while the matrix runs must not mix binaries
 def viol():
-    rc,out=sh('bin/amcheck -repo %s -prop all -listviol 2>&1'%WT)
+    rc,out=sh('/tmp/amcheck.matrix -verif /verif -repo %s -prop all -listviol 2>&1'%WT)
     v=set(l[2:] for l in out.splitlines() if l.startswith('V '))
     u=set(l[2:] for l in out.splitlines() if l.startswith('U ') or l.startswith('UNDECIDED'))
     return v,u,out
